@@ -69,13 +69,20 @@ _SUSP = st.fixed_dictionaries(
 def st_gen_script(draw: st.DrawFn, allow_raise: bool) -> dict:
     k = draw(st.sampled_from([0, 1, 1, 1, 2, 2, 3, 4]))
     raise_after = None
-    if allow_raise and k >= 1 and draw(st.integers(0, 4)) == 0:
+    raise_kind = "error"
+    if k >= 1 and draw(st.integers(0, 4)) == 0:
+        # "error": an Exception subclass (only where the server documents that it logs and goes on: the high-level server);
+        # "cancelled": the handler ends with CancelledError without anyone having cancelled its task (e.g. it awaited a task
+        # that somebody else cancelled): the client task just ends, queued datagrams must still be handled afterwards
+        kinds = (["error", "error", "cancelled"] if allow_raise else ["cancelled"])
+        raise_kind = draw(st.sampled_from(kinds))
         raise_after = draw(st.integers(1, k))
     return {
         "pre": draw(_SUSP),
         "k": k,
         "post": draw(st.lists(_SUSP, min_size=1, max_size=3)),
         "raise_after": raise_after,
+        "raise_kind": raise_kind,
         "first_timeout": draw(st.sampled_from([None, None, 0.25, 0.0])),
     }
 
@@ -323,6 +330,8 @@ class Script:
                     got += 1
                     if sc["raise_after"] == got:
                         log.append(("raise", gid, self._now()))
+                        if sc.get("raise_kind") == "cancelled":
+                            raise asyncio.CancelledError("handler ended by a cancellation that was not aimed at its task")
                         raise ScriptedError(f"scripted failure after request {got}")
                     continue
                 if reaction == "continue":
@@ -492,7 +501,15 @@ def run_case(case: dict) -> Outcome:
             **info,
         )
     if res["spin_jumps"]:
-        raise HarnessError(f"virtual loop made {res['spin_jumps']} busy-run clock jumps: exact-time oracle not applicable")
+        # generated schedules keep their own zero-delay chains far below the virtual loop's busy-run threshold (200 consecutive
+        # non-idle iterations), so a busy run can only come from the server itself keeping the loop busy without waiting
+        # for anything (e.g. re-feeding the same input to fresh handlers for ever)
+        raise Violation(
+            "busy-loop",
+            f"the %s server kept the event loop busy for at least 200 consecutive iterations without any timer "
+            f"({res['spin_jumps']} busy-run clock jump(s) of the virtual loop)" % "datagram",
+            **info,
+        )
 
     for a in range(naddr):
         pred, obs = models[a].log, res["logs"][a]
